@@ -257,6 +257,30 @@ func emitOverrideSweep(emit func(op string, args ...string)) {
 			emit("override", "_", "_", enc(f1), enc([]string{n, junk}))
 		}
 	}
+	// options that take a piece of text to draw: values at the edges of what their width checks accept —
+	// empty, too narrow, too wide, wide and combining characters, zero-width clusters before and after
+	for _, n := range optNames {
+		takesValue := false
+		for _, f := range optForms[n] {
+			if len(f) == 2 {
+				takesValue = true
+			}
+		}
+		if !takesValue || !strings.HasPrefix(n, "--") {
+			continue
+		}
+		cosmetic := false
+		for _, w := range []string{"marker", "pointer", "ellipsis", "scrollbar", "separator", "gutter", "ghost", "prompt", "label", "header", "footer"} {
+			cosmetic = cosmetic || strings.Contains(n, w)
+		}
+		if !cosmetic {
+			continue
+		}
+		for _, v := range []string{"", "a", "ab", "abc", "abcd", "aabbcc", "aabbccd", "abc\u200b", "\u200babc", "abc\x01", "\x01abc", "aabbcc\u200b", "a\u200bbc",
+			"\u65e5\u672c", "\u65e5\u672c\u8a9e", "e\u0301", "abe\u0301", "\t", " ", "\u200b", "a\u0301\u0301\u0301bc", "\U0001f468\u200d\U0001f469\u200d\U0001f467", "\xff", "ab\xff"} {
+			emit("override", "_", "_", "_", enc([]string{n + "=" + v}))
+		}
+	}
 	// value-taking long options with every keyword of the option grammar as the whole value, and with
 	// pairs of keywords: accepted or rejected, never a crash
 	for _, n := range optNames {
